@@ -262,14 +262,28 @@ func (ex *Exec) doPanic(st *State, fr *Frame, x *ssa.Panic) {
 // loops
 
 type writeSet struct {
-	cells map[*ssa.Alloc]bool
-	comps map[string]bool // component key prefixes
-	all   bool
-	ghost bool
+	cells  map[*ssa.Alloc]bool
+	comps  map[string]bool        // component key prefixes
+	roots  map[string][]ssa.Value // per prefix: the root pointer / slice / map values written through
+	anyRef map[string]bool        // per prefix: some write has an unknown root
+	all    bool
+	ghost  bool
+	allocs bool
+}
+
+// add records a write to the component family `prefix` through root value v
+// (nil = unknown object).
+func (ws *writeSet) add(prefix string, v ssa.Value) {
+	ws.comps[prefix] = true
+	if v == nil {
+		ws.anyRef[prefix] = true
+		return
+	}
+	ws.roots[prefix] = append(ws.roots[prefix], v)
 }
 
 func (ex *Exec) loopWrites(fr *Frame, li *loopInfo) *writeSet {
-	ws := &writeSet{cells: map[*ssa.Alloc]bool{}, comps: map[string]bool{}}
+	ws := &writeSet{cells: map[*ssa.Alloc]bool{}, comps: map[string]bool{}, roots: map[string][]ssa.Value{}, anyRef: map[string]bool{}}
 	for b := range li.blocks {
 		for _, in := range b.Instrs {
 			ex.instrWrites(fr, in, ws, 0)
@@ -280,6 +294,13 @@ func (ex *Exec) loopWrites(fr *Frame, li *loopInfo) *writeSet {
 
 // addrRoot statically traces an address computation to its root.
 func addrRoot(v ssa.Value) (cell *ssa.Alloc, prefix string, ok bool) {
+	cell, prefix, _, ok = addrRootV(v)
+	return
+}
+
+// addrRootV also returns the SSA value of the root object (pointer or slice)
+// when the address is not rooted in a local cell.
+func addrRootV(v ssa.Value) (cell *ssa.Alloc, prefix string, root ssa.Value, ok bool) {
 	path := ""
 	for {
 		switch x := v.(type) {
@@ -291,7 +312,7 @@ func addrRoot(v ssa.Value) (cell *ssa.Alloc, prefix string, ok bool) {
 			switch kindOf(x.X.Type()) {
 			case KSlice:
 				el := x.X.Type().Underlying().(*types.Slice).Elem()
-				return nil, rootKey(AElems, el) + path, true
+				return nil, rootKey(AElems, el) + path, x.X, true
 			case KPtr:
 				at := x.X.Type().Underlying().(*types.Pointer).Elem()
 				if kindOf(at) == KPacked {
@@ -306,13 +327,13 @@ func addrRoot(v ssa.Value) (cell *ssa.Alloc, prefix string, ok bool) {
 					continue
 				}
 				el := at.Underlying().(*types.Array).Elem()
-				return nil, rootKey(AElems, el) + path[len("_el"):], true
+				return nil, rootKey(AElems, el) + path[len("_el"):], x.X, true
 			default:
-				return nil, "", false
+				return nil, "", nil, false
 			}
 		case *ssa.Alloc:
 			if !x.Heap {
-				return x, "", true
+				return x, "", nil, true
 			}
 			t := x.Type().Underlying().(*types.Pointer).Elem()
 			if kindOf(t) == KArr {
@@ -320,25 +341,25 @@ func addrRoot(v ssa.Value) (cell *ssa.Alloc, prefix string, ok bool) {
 				if len(path) >= 3 && path[:3] == "_el" {
 					path = path[3:]
 				}
-				return nil, rootKey(AElems, el) + path, true
+				return nil, rootKey(AElems, el) + path, x, true
 			}
-			return nil, rootKey(AHeap, t) + path, true
+			return nil, rootKey(AHeap, t) + path, x, true
 		case *ssa.Global:
-			return nil, "", false
+			return nil, "", nil, false
 		default:
 			// a root pointer value
 			pt, isPtr := v.Type().Underlying().(*types.Pointer)
 			if !isPtr {
-				return nil, "", false
+				return nil, "", nil, false
 			}
 			if kindOf(pt.Elem()) == KArr {
 				el := pt.Elem().Underlying().(*types.Array).Elem()
 				if len(path) >= 3 && path[:3] == "_el" {
 					path = path[3:]
 				}
-				return nil, rootKey(AElems, el) + path, true
+				return nil, rootKey(AElems, el) + path, v, true
 			}
-			return nil, rootKey(AHeap, pt.Elem()) + path, true
+			return nil, rootKey(AHeap, pt.Elem()) + path, v, true
 		}
 	}
 }
@@ -346,28 +367,28 @@ func addrRoot(v ssa.Value) (cell *ssa.Alloc, prefix string, ok bool) {
 func (ex *Exec) instrWrites(fr *Frame, in ssa.Instruction, ws *writeSet, depth int) {
 	switch x := in.(type) {
 	case *ssa.Store:
-		cell, prefix, ok := addrRoot(x.Addr)
+		cell, prefix, root, ok := addrRootV(x.Addr)
 		switch {
 		case !ok:
 			ws.all = true
 		case cell != nil:
 			ws.cells[cell] = true
 		default:
-			ws.comps[prefix] = true
+			ws.add(prefix, root)
 		}
 	case *ssa.Alloc:
 		if !x.Heap {
 			ws.cells[x] = true
+		} else {
+			ws.allocs = true // content of a fresh object: no existing ref is affected
 		}
 	case *ssa.MapUpdate:
-		ws.comps["Map_"+typeKey(x.Map.Type().Underlying())] = true
-	case *ssa.MakeMap:
-		ws.comps["Map_"+typeKey(x.Type().Underlying())] = true
-	case *ssa.MakeSlice:
-		ws.comps[rootKey(AElems, x.Type().Underlying().(*types.Slice).Elem())] = true
+		ws.add("Map_"+typeKey(x.Map.Type().Underlying()), x.Map)
+	case *ssa.MakeMap, *ssa.MakeSlice:
+		ws.allocs = true
 	case *ssa.Convert:
 		if kindOf(x.Type()) == KSlice {
-			ws.comps[rootKey(AElems, x.Type().Underlying().(*types.Slice).Elem())] = true
+			ws.allocs = true
 		}
 	case *ssa.Next:
 		ws.ghost = true
@@ -396,15 +417,17 @@ func (ex *Exec) callWrites(fr *Frame, c *ssa.CallCommon, ws *writeSet, depth int
 		switch callee.Name() {
 		case "append":
 			el := c.Args[0].Type().Underlying().(*types.Slice).Elem()
-			ws.comps[rootKey(AElems, el)] = true
+			ws.add(rootKey(AElems, el), c.Args[0]) // in-place case writes the old backing store
+			ws.allocs = true
 		case "copy":
 			if sl, ok := c.Args[0].Type().Underlying().(*types.Slice); ok {
-				ws.comps[rootKey(AElems, sl.Elem())] = true
 				// destination may be an interior slice of a cell or struct
-				ws.markSliceDest(c.Args[0])
+				if !ws.markSliceDest(c.Args[0]) {
+					ws.add(rootKey(AElems, sl.Elem()), c.Args[0])
+				}
 			}
 		case "delete":
-			ws.comps["Map_"+typeKey(c.Args[0].Type().Underlying())] = true
+			ws.add("Map_"+typeKey(c.Args[0].Type().Underlying()), c.Args[0])
 		case "clear":
 			ws.all = true
 		}
@@ -420,12 +443,9 @@ func (ex *Exec) callWrites(fr *Frame, c *ssa.CallCommon, ws *writeSet, depth int
 			return
 		}
 		if ct := ex.db.funcs[funcName(callee)]; ct != nil && ct.HasAssigns {
-			for _, a := range ct.Assigns {
-				ws.comps[a.CompPrefix] = true
-			}
-			if ct.AssignsAll {
-				ws.all = true
-			}
+			// assigns patterns are evaluated per call; here only "something under
+			// these families" is known
+			ws.all = true
 			return
 		}
 		if len(callee.Blocks) > 0 && (inModule(callee) || inlineExternal(callee)) && depth < 3 {
@@ -468,16 +488,23 @@ func (ex *Exec) callWrites(fr *Frame, c *ssa.CallCommon, ws *writeSet, depth int
 	}
 }
 
-func (ws *writeSet) markSliceDest(v ssa.Value) {
+// markSliceDest handles a destination that is a slice expression over an
+// addressable array (local or field); reports whether it did.
+func (ws *writeSet) markSliceDest(v ssa.Value) bool {
 	if sl, ok := v.(*ssa.Slice); ok {
-		if cell, prefix, ok := addrRoot(sl.X); ok {
+		if _, isPtr := sl.X.Type().Underlying().(*types.Pointer); !isPtr {
+			return false
+		}
+		if cell, prefix, root, ok := addrRootV(sl.X); ok {
 			if cell != nil {
 				ws.cells[cell] = true
 			} else {
-				ws.comps[prefix] = true
+				ws.add(prefix, root)
 			}
+			return true
 		}
 	}
+	return false
 }
 
 // argWrites: an external call may write the memory its pointer and slice
@@ -486,17 +513,141 @@ func (ex *Exec) argWrites(c *ssa.CallCommon, ws *writeSet) {
 	for _, a := range c.Args {
 		switch kindOf(a.Type()) {
 		case KSlice:
-			ws.comps[rootKey(AElems, a.Type().Underlying().(*types.Slice).Elem())] = true
-			ws.markSliceDest(a)
+			if !ws.markSliceDest(a) {
+				ws.add(rootKey(AElems, a.Type().Underlying().(*types.Slice).Elem()), a)
+			}
 		case KPtr:
-			if cell, prefix, ok := addrRoot(a); ok {
+			if cell, prefix, root, ok := addrRootV(a); ok {
 				if cell != nil {
 					ws.cells[cell] = true
 				} else {
-					ws.comps[prefix] = true
+					ws.add(prefix, root)
 				}
 			}
 		}
+	}
+}
+
+// invariantRef resolves the root object of a write to a term that is the
+// same in every iteration: a value defined before the loop, or a load from a
+// local that the loop does not modify.
+func (ex *Exec) invariantRef(fr *Frame, st *State, li *loopInfo, ws *writeSet, v ssa.Value) (string, bool) {
+	refOf := func(x Val) (string, bool) {
+		switch y := x.(type) {
+		case Sc:
+			if y.S == SRef {
+				return y.T, true
+			}
+		case *Agg:
+			if len(y.F) == 4 {
+				if r, ok := y.F[0].(Sc); ok {
+					return r.T, true
+				}
+			}
+		}
+		return "", false
+	}
+	switch x := v.(type) {
+	case *ssa.Parameter, *ssa.FreeVar:
+		if r, ok := fr.regs[v]; ok {
+			return refOf(r)
+		}
+	case *ssa.UnOp:
+		if x.Op == token.MUL && li.blocks[x.Block()] {
+			// load inside the loop: from an unmodified local?
+			var path []PathEl
+			a := x.X
+			for {
+				if fa, ok := a.(*ssa.FieldAddr); ok {
+					path = append([]PathEl{{Field: fa.Field}}, path...)
+					a = fa.X
+					continue
+				}
+				break
+			}
+			if al, ok := a.(*ssa.Alloc); ok && !al.Heap && !ws.cells[al] {
+				if cur, ok := st.cells[al]; ok {
+					t := al.Type().Underlying().(*types.Pointer).Elem()
+					val := cur
+					if len(path) > 0 {
+						val = navRead(cur, t, path, nil)
+					}
+					return refOf(val)
+				}
+			}
+			return "", false
+		}
+	}
+	if ins, ok := v.(ssa.Instruction); ok && ins.Block() != nil && !li.blocks[ins.Block()] {
+		if r, ok := fr.regs[v]; ok {
+			return refOf(r)
+		}
+	}
+	return "", false
+}
+
+// havocLoopComps forgets what the loop may write: whole component families
+// when the written object is unknown, single objects otherwise.
+func (ex *Exec) havocLoopComps(fr *Frame, st *State, li *loopInfo, ws *writeSet) {
+	whole := map[string]bool{}
+	perRef := map[string][]string{}
+	for p := range ws.comps {
+		if ws.anyRef[p] {
+			whole[p] = true
+			continue
+		}
+		ok := true
+		var refs []string
+		for _, v := range ws.roots[p] {
+			r, good := ex.invariantRef(fr, st, li, ws, v)
+			if !good {
+				ok = false
+				break
+			}
+			refs = append(refs, r)
+		}
+		if !ok {
+			whole[p] = true
+		} else {
+			perRef[p] = refs
+		}
+	}
+	if len(whole) > 0 {
+		ex.epochs++
+		ex.epochInfo[ex.epochs] = epochInfo{parent: st.epoch, prefixes: whole}
+		st.epoch = ex.epochs
+		ex.havocComps(st, whole)
+	}
+	// per-object havoc: components are created lazily, so make sure the ones
+	// under the prefix exist by touching the known ones only; unknown (never
+	// mentioned) components under the prefix are treated as whole-family.
+	var ps []string
+	for p := range perRef {
+		ps = append(ps, p)
+	}
+	sort.Strings(ps)
+	lazy := map[string]bool{}
+	for _, p := range ps {
+		for _, key := range sortedCompKeys(ex.comps) {
+			if !hasPrefix(key, p) {
+				continue
+			}
+			ci := ex.comps[key]
+			cur := ex.comp(st, key, ci.sort)
+			_, inner := ci.sort.ArrParts()
+			for _, r := range perRef[p] {
+				cur = sto(cur, r, ex.vc.Fresh("hv_"+key, inner))
+			}
+			st.heap[key] = ex.vc.Bind("h_"+key, ci.sort, cur)
+		}
+		lazy[p] = true
+	}
+	if len(lazy) > 0 {
+		// components under these prefixes that are first mentioned later must
+		// not resolve to the pre-loop constant
+		ex.epochs++
+		ex.epochInfo[ex.epochs] = epochInfo{parent: st.epoch, prefixes: lazy, lazyOnly: true}
+		st.epoch = ex.epochs
 	}
 }
 
@@ -532,10 +683,14 @@ func (ex *Exec) cutLoop(fr *Frame, st *State, li *loopInfo) {
 	if ws.all {
 		ex.havocAllHeap(st, "loop")
 	} else {
-		ex.epochs++
-		ex.epochInfo[ex.epochs] = epochInfo{parent: st.epoch, prefixes: ws.comps}
-		st.epoch = ex.epochs
-		ex.havocComps(st, ws.comps)
+		ex.havocLoopComps(fr, st, li, ws)
+	}
+	if ws.allocs || ws.all {
+		// objects allocated by earlier iterations are allocated at the header
+		na := ex.vc.Fresh("alloc_hdr", ArrS(SRef, SBool))
+		ex.assume(st, fmt.Sprintf("(forall ((qr (_ BitVec 64))) (! (=> (select %s qr) (select %s qr)) :pattern ((select %s qr))))", st.alloc, na, na))
+		ex.assume(st, not(sel(na, z64())))
+		st.alloc = na
 	}
 	var cells []*ssa.Alloc
 	for c := range ws.cells {
@@ -573,6 +728,7 @@ type epochInfo struct {
 	parent   int
 	prefixes map[string]bool
 	all      bool
+	lazyOnly bool
 }
 
 func (ex *Exec) loopContract(fr *Frame, li *loopInfo) *LoopContract {
